@@ -120,6 +120,52 @@ class H:
         from vf.lockmon import LockMon
         self.lockmon = LockMon().install()
 
+    def start_hang_monitor(self, acc, spec, limit=12.0):
+        """A scheduling call (sched / sched_abs / play / tempo change) that does not
+        return is a deadlock in the library, not a harness problem: it is
+        reported with the function the stuck thread sits in, the accumulator is
+        written out and the worker exits (the process could not be joined)."""
+        import json as _json
+        import os as _os
+        import sys as _sys
+        h = self
+
+        def innermost_sc3(frame):
+            name = None
+            while frame is not None:
+                fn = frame.f_code.co_filename
+                if '/sc3/' in fn and name is None:
+                    name = frame.f_code.co_qualname
+                frame = frame.f_back
+            return name
+
+        def monitor():
+            while True:
+                time.sleep(1.0)
+                now = h.main.elapsed_time()
+                stuck = [r for r in list(h.recs.values())
+                         if r['c0'] is not None and r['c1'] is None and now - r['c0'] > limit]
+                stuck += [r for r in list(h.recs.values())
+                          if r.get('moving') and now - r['moving'] > limit]
+                if not stuck or h.watch.max_oversleep > 2.0:
+                    continue
+                frames = _sys._current_frames()
+                sites = sorted({innermost_sc3(f) for f in frames.values()} - {None})
+                r = stuck[0]
+                acc.violation(
+                    f"C08/scheduling-call-hangs/{r['ckind']}",
+                    {'rec': _rec_repr(r), 'stuck_calls': len(stuck),
+                     'threads_inside_sc3': sites, 'shard': spec['shard']['name']})
+                acc.count('hang_monitor_fired')
+                res = acc.dump()
+                res['ok'] = True
+                tmp = spec['out'] + '.tmp'
+                with open(tmp, 'w') as f:
+                    _json.dump(res, f)
+                _os.replace(tmp, spec['out'])
+                _os._exit(0)
+        threading.Thread(target=monitor, daemon=True, name='vf-hang-monitor').start()
+
     def report_lockmon(self, acc):
         acc.count('queue_accesses_lock_checked', self.lockmon.checked)
         self.lockmon.checked = 0
@@ -256,10 +302,12 @@ class H:
         """Schedules the SAME task object again on its clock while (probably)
         still pending: the clock must move it to the new time."""
         m = dict(val=val, c0_seq=self.log.seq(), c0=self.main.elapsed_time())
+        rec['moving'] = m['c0']
         try:
             rec['clock'].sched(val, rec['item'])
         except Exception as e:
             m['error'] = repr(e)
+        rec['moving'] = None
         m['c1'] = self.main.elapsed_time()
         m['c1_seq'] = self.log.seq()
         rec.setdefault('moves', []).append(m)
@@ -627,6 +675,7 @@ def run_stress(spec, acc):
     seed = derive_seed(spec['seed'], 'C08', cfg['name'], spec.get('attempt', 0))
     rng0 = random.Random(seed)
     h = H()
+    h.start_hang_monitor(acc, spec)
     main, clk = h.main, h.clk
     tempos = [h.new_tempo(rng0.choice([0.5, 1, 2, 4, 8]), i)
               for i in range(cfg['ntempo'])]
@@ -827,6 +876,7 @@ def run_park(spec, acc):
     seed = derive_seed(spec['seed'], 'C08', cfg['name'])
     rng = random.Random(seed)
     h = H()
+    h.start_hang_monitor(acc, spec, limit=15.0)
     main, clk = h.main, h.clk
     targets = park_targets(ck)
     all_codes = list({id(c): c for _, c, _ in targets}.values())
@@ -1055,6 +1105,7 @@ def run_clear(spec, acc):
     seed = derive_seed(spec['seed'], 'C08', cfg['name'])
     rng = random.Random(seed)
     h = H()
+    h.start_hang_monitor(acc, spec)
     main, clk = h.main, h.clk
     vid = [0]
     for rnd in range(cfg['rounds']):
